@@ -83,16 +83,13 @@ def run(c):
     except vlib.Infra as e:
         if "unexpected outcome" not in str(e):
             raise
-        o2 = fnlib.Obligations(c, "fn", "EventWide", [("case %d" % k, "Init", "Case%d" % k, True) for k in range(len(wide))], par=3)
-        for f_ in o2.futs:
-            r = f_.result()
-            if not r["holds"]:
-                cs = wide[int(r["inv"][4:])]
-                wide_bad.append(cs)
-                c.violation("accept-iff-well-formed", "eventcheck:wide:%s" % ("accepted-ill-formed" if cs["accepted"] else "rejected-well-formed"),
-                            "Checkers.Validate %s %s; EventCheck!WellFormed (Apalache) says the opposite" % (
-                                "accepted" if cs["accepted"] else "rejected (%s)" % cs["error"], json.dumps(dict(e=cs["e"], ps=cs["ps"], cur=cs["cur"], vals=cs["vals"]))),
-                            replay=cs)
+        for k in fnlib.find_failing(c, "fn", "EventWide", lambda ex: fnlib.event_wide_module("EventWide", wide, ex), "Sel", len(wide)):
+            cs = wide[k]
+            wide_bad.append(cs)
+            c.violation("accept-iff-well-formed", "eventcheck:wide:%s" % ("accepted-ill-formed" if cs["accepted"] else "rejected-well-formed"),
+                        "Checkers.Validate %s %s; EventCheck!WellFormed (Apalache) says the opposite" % (
+                            "accepted" if cs["accepted"] else "rejected (%s)" % cs["error"], json.dumps(dict(e=cs["e"], ps=cs["ps"], cur=cs["cur"], vals=cs["vals"]))),
+                        replay=cs)
         if not wide_bad:
             raise vlib.Infra("EventWide conjunction failed but no single case does")
     c.guard("wide_vectors_accepted", len([w for w in wide if w["accepted"]]))
